@@ -280,6 +280,14 @@ func runCheck(p *vc.Program, prop, tier string) int {
 				}
 			}
 		}
+		if strings.Contains(u.Unsupported, "spec error") {
+			// the contract no longer fits the shape of the code (renamed or removed
+			// local, loop or field): the contract needs maintenance; nothing is
+			// concluded about the property from this unit
+			undecided = append(undecided, u.Key+"/contract-drift")
+			fmt.Printf("UNDECIDED: %s: contract no longer applies to the code (%s)\n", u.Key, u.Unsupported)
+			continue
+		}
 		if inLed || led == nil {
 			name := u.Key + "/translate"
 			if f := matchFinding(findings, prop, name); f != nil {
